@@ -40,6 +40,8 @@ type c18BulkCase struct {
 	N0  int    `json:"n0"`  // completed cheap calls before the long call starts
 	N   int    `json:"n"`   // completed cheap calls while the long call is in flight
 	Mod int    `json:"mod"` // number of distinct churn keys (0: every churn call has its own key)
+	W   int    `json:"w"`   // callers arriving on K while the long call is in flight (lockedcalls, singleflight, resourcemanager)
+	S   int    `json:"s"`   // size of the limit / pool (scale-free: 0, 1, ... 2^16+1, 10^5)
 }
 
 func c18ChurnKey(c c18BulkCase, i int) string {
@@ -52,6 +54,18 @@ func c18ChurnKey(c c18BulkCase, i int) string {
 func c18BulkInterp(t *testing.T, c c18BulkCase) kit.Verdict {
 	v := c18NewV()
 	v.class(c.K)
+	if c.K == "limit" || c.K == "pool" {
+		switch {
+		case c.S >= 65536:
+			v.class("size>=2^16")
+		case c.S >= 256:
+			v.class("size>=2^8")
+		case c.S == 0:
+			v.class("size=0")
+		}
+	} else if c.W >= 255 {
+		v.class("waiters>=255")
+	}
 	switch {
 	case c.N0+c.N >= 60000:
 		v.class("history>=60000")
@@ -113,18 +127,20 @@ func c18BulkInterp(t *testing.T, c c18BulkCase) kit.Verdict {
 			}()
 			<-started
 			churn(c.N0, c.N)
-			wg.Add(1)
-			go func() {
-				defer wg.Done()
-				if val, _ := lc.Do("K", func() (interface{}, error) { second(); return "second", nil }); val != "second" {
-					flag("locked-calls: the second call on K returned %v, not its own result", val)
-				}
-			}()
-			kit.Wait() // the second call is now blocked behind the first, or has wrongly run
+			for w := 0; w < c.W; w++ {
+				wg.Add(1)
+				go func(w int) {
+					defer wg.Done()
+					if val, _ := lc.Do("K", func() (interface{}, error) { second(); return w, nil }); val != w {
+						flag("locked-calls: waiter %d on K returned %v, not its own result", w, val)
+					}
+				}(w)
+			}
+			kit.Wait() // the waiters are now blocked behind the first call, or have wrongly run
 			close(release)
 			wg.Wait()
-			if secondRan.Load() != 1 {
-				flag("locked-calls: the second call on K ran its callback %d times", secondRan.Load())
+			if int(secondRan.Load()) != c.W {
+				flag("locked-calls: %d waiters on K ran their callbacks %d times in all", c.W, secondRan.Load())
 			}
 		case "singleflight":
 			sf := syncx.NewSingleFlight()
@@ -147,14 +163,16 @@ func c18BulkInterp(t *testing.T, c c18BulkCase) kit.Verdict {
 			}()
 			<-started
 			churn(c.N0, c.N)
-			wg.Add(1)
-			go func() {
-				defer wg.Done()
-				val, fresh, _ := sf.DoEx("K", func() (interface{}, error) { second(); return "second", nil })
-				if val != "first" || fresh {
-					flag("single-flight: after %d+%d completed calls on other keys, a call on K overlapping the execution in flight returned (%v, fresh=%v), want the one execution's result", c.N0, c.N, val, fresh)
-				}
-			}()
+			for w := 0; w < c.W; w++ {
+				wg.Add(1)
+				go func() {
+					defer wg.Done()
+					val, fresh, _ := sf.DoEx("K", func() (interface{}, error) { second(); return "second", nil })
+					if val != "first" || fresh {
+						flag("single-flight: after %d+%d completed calls on other keys, one of %d calls on K overlapping the execution in flight returned (%v, fresh=%v), want the one execution's result", c.N0, c.N, c.W, val, fresh)
+					}
+				}()
+			}
 			kit.Wait()
 			close(release)
 			wg.Wait()
@@ -198,14 +216,23 @@ func c18BulkInterp(t *testing.T, c c18BulkCase) kit.Verdict {
 			<-started
 			churn(c.N0, c.N)
 			var got io.Closer
-			wg.Add(1)
-			go func() {
-				defer wg.Done()
-				got, _ = m.Get("K", func() (io.Closer, error) { second(); return mk(-2)() })
-			}()
+			gots := make([]io.Closer, c.W)
+			for w := 0; w < c.W; w++ {
+				wg.Add(1)
+				go func(w int) {
+					defer wg.Done()
+					gots[w], _ = m.Get("K", func() (io.Closer, error) { second(); return mk(-2)() })
+				}(w)
+			}
 			kit.Wait()
 			close(release)
 			wg.Wait()
+			got = first
+			for _, x := range gots {
+				if x == nil || x != first {
+					got = x
+				}
+			}
 			if secondRan.Load() != 0 || got == nil || got != first {
 				flag("resource-manager: after %d+%d Gets on other keys, a Get(K) overlapping the create in flight ran its own create=%v and returned a different resource=%v", c.N0, c.N, secondRan.Load() != 0, got != first)
 			}
@@ -224,12 +251,15 @@ func c18BulkInterp(t *testing.T, c c18BulkCase) kit.Verdict {
 				}
 			}
 		case "pool":
-			const limit = 2
+			limit := c.S
+			if limit < 2 {
+				limit = 2
+			}
 			var live atomic.Int32
 			type res struct{ id int32 }
 			p := syncx.NewPool(limit, func() interface{} {
 				n := live.Add(1)
-				if n > limit {
+				if int(n) > limit {
 					flag("pool(limit %d): %d live resources", limit, n)
 				}
 				return &res{id: n}
@@ -253,9 +283,57 @@ func c18BulkInterp(t *testing.T, c c18BulkCase) kit.Verdict {
 			}
 			p.Put(other)
 			p.Put(held)
+			// fill the pool: exactly limit distinct resources, the next Get blocks
+			// until one is put back
+			all := make([]interface{}, 0, limit)
+			seen := map[interface{}]bool{}
+			for i := 0; i < limit; i++ {
+				x := p.Get()
+				if seen[x] {
+					flag("pool(limit %d): resource handed out twice while filling (%d-th Get)", limit, i+1)
+					break
+				}
+				seen[x] = true
+				all = append(all, x)
+			}
+			if int(live.Load()) > limit {
+				flag("pool(limit %d): %d live resources", limit, live.Load())
+			}
+			var extra atomic.Value
+			wg.Add(1)
+			go func() {
+				defer wg.Done()
+				extra.Store(p.Get())
+			}()
+			kit.Wait()
+			if extra.Load() != nil {
+				flag("pool(limit %d): Get number %d did not wait although %d resources are held", limit, limit+1, limit)
+			}
+			p.Put(all[0])
+			wg.Wait()
+			if extra.Load() != all[0] {
+				flag("pool(limit %d): the waiting Get was not served the resource put back", limit)
+			}
 		case "limit":
-			const n = 3
+			n := c.S
 			l := syncx.NewLimit(n)
+			if n == 0 {
+				// a limit of nothing: no borrow ever fits, nothing can be returned
+				if l.TryBorrow() {
+					flag("limit(0): TryBorrow succeeded")
+				}
+				if err := l.Return(); err != syncx.ErrLimitReturn {
+					flag("limit(0): Return returned %v", err)
+				}
+				tl := syncx.NewTimeoutLimit(0)
+				if tl.TryBorrow() {
+					flag("timeout-limit(0): TryBorrow succeeded")
+				}
+				if err := tl.Borrow(c18ms); err != syncx.ErrTimeout {
+					flag("timeout-limit(0): Borrow(1ms) returned %v", err)
+				}
+				return
+			}
 			churn := func(k int) {
 				for i := 0; i < k; i++ {
 					l.Borrow()
@@ -266,8 +344,13 @@ func c18BulkInterp(t *testing.T, c c18BulkCase) kit.Verdict {
 				}
 			}
 			churn(c.N0)
+			if n == 1 {
+				churn(c.N) // with a single slot nothing else fits while it is taken
+			}
 			l.Borrow() // outstanding across the churn
-			churn(c.N)
+			if n > 1 {
+				churn(c.N)
+			}
 			fit := 0
 			for l.TryBorrow() {
 				fit++
@@ -296,7 +379,14 @@ func c18BulkInterp(t *testing.T, c c18BulkCase) kit.Verdict {
 
 func c18BulkGen(rt *rapid.T) c18BulkCase {
 	c := c18BulkCase{
-		K: rapid.SampledFrom([]string{"lockedcalls", "lockedcalls", "singleflight", "singleflight", "resourcemanager", "pool", "limit"}).Draw(rt, "k"),
+		K: rapid.SampledFrom([]string{"lockedcalls", "lockedcalls", "singleflight", "singleflight", "resourcemanager", "pool", "limit", "limit"}).Draw(rt, "k"),
+	}
+	c.W = rapid.SampledFrom([]int{1, 1, 1, 2, 3, 255, 256, 257, 1000, 4096}).Draw(rt, "waiters")
+	switch c.K {
+	case "limit":
+		c.S = rapid.SampledFrom([]int{0, 1, 2, 3, 127, 128, 255, 256, 257, 32767, 32768, 65535, 65536, 65537, 100000}).Draw(rt, "size")
+	case "pool":
+		c.S = rapid.SampledFrom([]int{2, 3, 127, 128, 255, 256, 257, 4096, 65535, 65536, 65537}).Draw(rt, "size")
 	}
 	// around powers of two and round decimal thresholds, +- a few
 	base := rapid.SampledFrom([]int{1000, 1024, 2048, 4096, 5000, 8192, 10000, 10000, 16384, 20000, 32768, 50000, 65536, 70000}).Draw(rt, "base")
